@@ -287,7 +287,7 @@ func seqCheck(o checkOpts, level, rule string, nQuick, nThorough int) int {
 		ev.Violations++
 		if exit == 0 {
 			rf := &SeqReplayFile{Property: o.id, Violation: v.Clause, Detail: v.Detail, Fault: v.Fault, Seed: o.seed, Run: v.Index, Decoded: v.Shape.Decoded, Source: v.Shape.Source, Engine: "seqsim", RepoRev: repoRev()}
-			dir := filepath.Join(verifRoot, "replays")
+			dir := replaysDir()
 			os.MkdirAll(dir, 0o755)
 			path := filepath.Join(dir, fmt.Sprintf("%s-%d-%d.json", o.id, o.seed, v.Index))
 			b, _ := json.MarshalIndent(rf, "", " ")
